@@ -9,6 +9,11 @@ CHECKS = {
          "Every scalar operator of GoldilocksField on every pair/triple of the branch-derived representation alphabet R (75 raw u64 values incl. non-canonical ones), a BFS closure feeding results back as operands, the D=2,4,5 extensions against schoolbook arithmetic mod X^D-W on coordinate alphabets, batch inversion for every length 0..13 and the packed field lane by lane; run in the checked profile so that a false `assume` is a panic. Exhaustive inside the stated alphabets; the 2^128 operand pairs of the quantifier are out of reach of enumeration.",
          "trusted: u128 %% p reference arithmetic in harness/src/core.rs; alphabet R derived from the carry/borrow/EPSILON branch conditions",
          "DESIGN.md §4 C14"),
+ "C15": ("exploration",
+         "bounded exhaustive enumeration over sizes x option combinations x spanning input family, oracle = direct evaluation / schoolbook algebra in the harness",
+         "FFT/IFFT/coset/LDE for every size 2^k up to the tier bound under every (zero_factor, root-table) option combination on every unit vector (= every entry of the transform matrix) plus boundary-valued and dense vectors, against direct evaluation; all ordered pairs of coefficient vectors up to length 4 over {0,1,p-1} through *, +, -, div_rem (both routines), divide_by_linear, inv_mod_xn, eval; interpolation on all point sets of size <= 4 from a 6-element abscissa alphabet; bit-reversal for every lb_n up to the bound with four element types (crossing every algorithm switch); transpose and integer helpers. Run in the checked profile.",
+         "trusted: naive DFT / schoolbook polynomial arithmetic in harness/src/c15.rs; linearity of the transforms (unit vectors span the input space)",
+         "DESIGN.md §4 C15"),
 }
 
 NOT_YET = {
